@@ -1,5 +1,5 @@
 CONSTANTS
-  MaxTicks = 9
+  MaxTicks = 8
   MaxReq = 6
   SecondCancel = TRUE
 SPECIFICATION Spec
